@@ -25,12 +25,7 @@ def _observers():
 
 
 def run(ctx):
-    import edits
-    edits.REP_ASSIGN = True        # whole-field assignments are edits like any other for the invariant
-    try:
-        _run(ctx)
-    finally:
-        edits.REP_ASSIGN = False
+    _run(ctx)
 
 
 def _run(ctx):
@@ -46,12 +41,7 @@ def _run(ctx):
 
 
 def search(ctx, hints):
-    import edits
-    edits.REP_ASSIGN = True
-    try:
-        session.run_sessions(ctx, ctx.scale(2500, 10000), 30, ['inv', 'reads', 'nodouble'], malformed=0.12)
-    finally:
-        edits.REP_ASSIGN = False
+    session.run_sessions(ctx, ctx.scale(2500, 10000), 30, ['inv', 'reads', 'nodouble'], malformed=0.12)
 
 
 def replay(ctx, data):
